@@ -1,7 +1,7 @@
 """Per-property checks.  Every function returns an Outcome dict:
    level, coverage (EVIDENCE schema keys), mismatches (real-code disagreements that are
    violations of *this* property), assumptions."""
-import json, os, sys, time, concurrent.futures as cf
+import json, os, re, sys, time, concurrent.futures as cf
 import vlib
 from vlib import ToolFailure, run_tlc, run_harness, write_rows
 
@@ -150,14 +150,73 @@ def cacheseq_runs(tier, seed):
     return mc, rows, len(sim.rows)
 
 
+def refresh_trace_validation(seed, extra_trace):
+    """Runs the repository's own pkg/cdi tests with the verif tag and CDI_VERIF_TRACE, adds the refreshes
+    recorded during the replay, and lets TLC validate every distinct one against RefreshTrace."""
+    t1 = scratch_file("repo-tests-refreshes.ndjson")
+    env = vlib.goenv()
+    env["CDI_VERIF_TRACE"] = t1
+    p = vlib.sh(["go", "test", "-tags", "verif", "-vet=off", "-count=1", "./pkg/cdi/"], cwd=vlib.REPO, env=env, timeout=1500, check=False)
+    evs, seen, n = [], set(), 0
+    try:
+        for path in (t1, extra_trace):
+            if not path or not os.path.exists(path):
+                continue
+            for l in open(path):
+                try:
+                    e = json.loads(l)
+                except Exception:
+                    continue
+                n += 1
+                specs = [{"path": x["path"], "prio": x["priority"], "qs": sorted(x["vendor"] + "/" + x["class"] + "=" + d for d in x["devices"])} for x in e["specs"]]
+                devs = [{"q": q, "path": v["path"], "prio": v["priority"]} for q, v in e["devices"].items()]
+                base = lambda pth: os.path.basename(os.path.dirname(pth)) + "/" + os.path.basename(pth)
+                k = json.dumps([sorted((base(x["path"]), x["prio"], tuple(x["qs"])) for x in specs), sorted((d["q"], base(d["path"]), d["prio"]) for d in devs)])
+                if k not in seen:
+                    seen.add(k)
+                    evs.append({"specs": specs, "devs": devs})
+    finally:
+        for path in (t1, extra_trace):
+            if path and os.path.exists(path):
+                os.unlink(path)
+    if n == 0:
+        raise ToolFailure("no refresh was recorded (hooks missing, or the repository's tests did not build):\n" + (p.stdout or "")[-1500:])
+    mism = []
+    # validate in chunks so that a rejected refresh can be named
+    chunk = 400
+    for i in range(0, len(evs), chunk):
+        part = evs[i:i + chunk]
+        ft = scratch_file("refresh-trace.ndjson")
+        write_rows(part, ft)
+        try:
+            r = run_tlc("RefreshTrace", "RefreshTrace.cfg", env_extra={"TRACE": ft}, workers=1, timeout=900)
+        finally:
+            os.unlink(ft)
+        if "IndexIsPrecedence" in r.violated:
+            m = re.search(r"i = (\d+)", "\n".join(r.trace[::-1]))
+            idx = None
+            for l in r.trace:
+                mm = re.match(r"^/?\\?\s*i = (\d+)", l.strip())
+                if mm:
+                    idx = int(mm.group(1))
+            bad = part[idx - 1] if idx else part[0]
+            mism.append({"what": "recorded-refresh-violates-the-precedence-rule", "props": ["C01"], "case": -1, "step": -1,
+                         "want": "index = precedence rule applied to the Specs the refresh loaded", "got": bad["devs"], "note": json.dumps(bad)[:3000], "row": None})
+        elif r.violated:
+            raise ToolFailure("SPEC-DRIFT: RefreshTrace could not consume the recorded refreshes: %s\n%s" % (r.violated, r.raw_tail[-800:]))
+    return {"mismatches": mism, "events": n, "distinct": len(evs)}
+
+
 @check("C01", "C04", "C13", "C16")
 def cacheseq(prop, tier, seed):
     vlib.build_harness()
     mc, rows, nsim = cacheseq_runs(tier, seed)
     f = scratch_file("cacheseq.ndjson")
+    replay_trace = scratch_file("cacheseq-refreshes.ndjson")
     write_rows(rows, f)
     try:
-        res, err = run_harness("replay-cache", ["-cases", f, "-seed", seed])
+        res, err = run_harness("replay-cache", ["-cases", f, "-seed", seed],
+                               env_extra={"CDI_VERIF_TRACE": replay_trace} if prop == "C01" else None)
     finally:
         os.unlink(f)
     tool_errors(res["mismatches"])
@@ -186,6 +245,15 @@ def cacheseq(prop, tier, seed):
         "checker_cmd": "tlc MCCacheSeq (-config CacheSeq_mc_%s.cfg; generation cfgs; -simulate) + harness replay-cache" % tier,
     }
     if prop == "C01":
+        # binding B (code -> spec): every refresh completed by the repository's own test-suite (built with the
+        # verif tag) and by the replay above is validated by TLC against the precedence rule (spec/RefreshTrace.tla)
+        tv = refresh_trace_validation(seed, replay_trace)
+        mine += tv["mismatches"]
+        cov["refresh_events_recorded"] = tv["events"]
+        cov["refresh_events_distinct_validated"] = tv["distinct"]
+        cov["traces_validated_against_impl"] += tv["distinct"]
+        cov["rule"] += ("; plus trace validation: %d refreshes recorded from the repository's own pkg/cdi tests and from this replay "
+                        "(%d distinct up to renaming) accepted by TLC against spec/RefreshTrace.tla" % (tv["events"], tv["distinct"]))
         # "in both manual and automatic refresh configurations": directory histories on an auto-refresh cache
         g = run_tlc("CacheAuto", "CacheAuto_gen1.cfg", timeout=1800, simulate="num=%d" % (25 if tier == "quick" else 300), depth=40, seed=seed, workers=4, deadlock=True)
         arows = dedupe_auto(g.rows)
